@@ -243,6 +243,8 @@ Variable instr : string -> bool.
 Variable lit_ok : string -> bool.
 (** ... and which names are instrumented as BARE calls [f(a)] (methods "allowed without callee"). *)
 Variable awc : string -> bool.
+(** ... and whether [+] / [+=] are instrumented at all (the plus operator is configured). *)
+Variable plus_on : bool.
 
 (** [replace_with_member]: the receiver is captured (a literal stays), the function is read from it into a
     temporary, the argument is captured unless it is a literal or a sum left in place (which is not passed
@@ -311,7 +313,7 @@ Fixpoint rw (e : expr) (c : nat) : expr * nat :=
   | Add l r =>
       let '(l', c1) := rw l c in
       let '(r', c2) := rw r c1 in
-      rw_add l' r' c2
+      if plus_on then rw_add l' r' c2 else (Add l' r', c2)
   | CallE f a =>
       let '(f', c1) := rw f c in
       let '(a', c2) := rw a c1 in
@@ -320,11 +322,11 @@ Fixpoint rw (e : expr) (c : nat) : expr * nat :=
       | _ => (CallE f' a', c2)
       end
   | Par x => let '(x', c1) := rw x c in (Par x', c1)
-  | AddAsgV x e1 => let '(e', c1) := rw e1 c in rw_addasg_v x e' c1
+  | AddAsgV x e1 => let '(e', c1) := rw e1 c in if plus_on then rw_addasg_v x e' c1 else (AddAsgV x e', c1)
   | AddAsgM o k e1 =>
       let '(o', c1) := rw o c in
       let '(e', c2) := rw e1 c1 in
-      rw_addasg_m o' k e' c2
+      if plus_on then rw_addasg_m o' k e' c2 else (AddAsgM o' k e', c2)
   | MCall0 o m =>
       let '(o', c1) := rw o c in
       if instr m && (negb (is_lit o') || lit_ok m) && recv_ok o' then rw_mcall0 o' m c1 else (MCall0 o' m, c1)
@@ -355,6 +357,19 @@ Fixpoint rw (e : expr) (c : nat) : expr * nat :=
            (Guard c o' body, c3)
       else let '(o', c1) := rw o c in let '(a', c2) := rw a c1 in (OptMCall1 o' m a', c2)
   | _ => (e, c)
+  end.
+
+(** The expression as a whole stands at the ROOT of the operation visitor: the counter of temporaries starts again after
+    every instrumented operation that is not nested in another one.  With the plus operator configured only the outermost
+    parentheses separate the root from the first operation; without it a sum (or compound assignment) is transparent and
+    each of its operands is a root of its own: [b.slice() + `${a}`] numbers the temporaries of both operands from 0. *)
+Fixpoint rw_root (e : expr) : expr :=
+  match e with
+  | Par x => Par (rw_root x)
+  | Add l r => if plus_on then fst (rw e 0) else Add (rw_root l) (rw_root r)
+  | AddAsgV x e1 => if plus_on then fst (rw e 0) else AddAsgV x (rw_root e1)
+  | AddAsgM o k e1 => if plus_on then fst (rw e 0) else AddAsgM (rw_root o) k (rw_root e1)
+  | _ => fst (rw e 0)
   end.
 
 (* source programs: no temps, no instrumentation *)
